@@ -209,3 +209,15 @@ contract(f"{PBA}::PengBaoRangeAlgorithm.certainty", "range.certainty.nothing-pro
          ensures=["result[0] == (1.0 if n_resp > 0 and all([r1, r2][:n_resp]) else 0.0)", "result[1] == 1.0 - result[0]"],
          bounded="0..2 processed responses",
          note="'in range' is certain only if at least one challenge was answered and every answered challenge checked out")
+
+# range proofs: the attested number is the big-endian value of the attribute bytes - the same reading the owner and every verifier use
+for _len in (1, 2, 3):
+    contract(f"{PBA}::PengBaoRangeAlgorithm.attest", f"range.attest.reads-the-value-big-endian[{_len} bytes]",
+             vars={"self": OBJ(f"{PBA}::PengBaoRangeAlgorithm", key_size=EXPR("32"), a=INT, b=INT), "PK": ANY, "value": BYTES_N(_len)},
+             call="self.attest(PK, value)", raises=[],
+             stubs={"ipv8/attestation/wallet/pengbaorange/attestation.py::create_attest_pair": {
+                 "event": "create_attest_pair", "returns": EFFECT("pair", serialize_private={"returns": BYTES}),
+                 "note": "proof construction (own native run)"}},
+             on_effect={"create_attest_pair": ["args[1] == be_value(value)", "args[0] is PK", "args[2] == self.a and args[3] == self.b"]},
+             ensures=["len(calls('create_attest_pair')) == 1"],
+             note="multi-byte attribute values are attested as the number their bytes spell, most significant byte first")
